@@ -13,3 +13,45 @@ package midicatdrv
 //@ ensures [P:C14] (typeOfB(len(data), data[0]) == midi.ActiveSenseMsg && !conf.ActiveSense) || (typeOfB(len(data), data[0]) == midi.TimingClockMsg && !conf.TimeCode) || (typeOfB(len(data), data[0]) == midi.SysExMsg && !conf.SysEx) ==> cb_n == old(cb_n)
 //@ ensures [P:C14] !((typeOfB(len(data), data[0]) == midi.ActiveSenseMsg && !conf.ActiveSense) || (typeOfB(len(data), data[0]) == midi.TimingClockMsg && !conf.TimeCode) || (typeOfB(len(data), data[0]) == midi.SysExMsg && !conf.SysEx)) ==> (cb_n == old(cb_n) + 1 && cb_fn(old(cb_n)) == onMsg && cb_len(old(cb_n), 0) == len(data) && cb_i32(old(cb_n), 1) == absmilliseconds)
 //@ ensures [P:C14] cb_n == old(cb_n) + 1 ==> forall j int :: 0 <= j && j < len(data) ==> cb_byte(old(cb_n), 0, j) == data[j]
+
+// ---------------------------------------------------------------- lock discipline of the calling goroutine (C17)
+// The ports embed a sync.RWMutex. With the contracts of /verif/spec/stdlib.gvs for Lock/Unlock/RLock/RUnlock
+// (ghost: this goroutine holds the write lock / n read locks) a function that acquires a lock it already holds
+// fails the precondition of Lock: that is the self-deadlock "the call blocks forever". The helper process and the
+// goroutines started here are not modelled (M3); building and starting the command are opaque.
+
+//@ func midiCatInCmd
+//@ trusted
+//@ ensures result != nil && fresh(result)
+//@ func midiCatOutCmd
+//@ trusted
+//@ ensures result != nil && fresh(result)
+//@ func :exec.(*Cmd).Start
+//@ trusted
+//@ ensures true
+//@ func :io.Pipe
+//@ trusted
+//@ ensures result0 != nil && result1 != nil && fresh(result0) && fresh(result1)
+
+// starting the helper: whether it starts or not, the lock is released again on return
+//@ func (*in).fireCmd
+//@ requires o != nil && !emb(o, RWMutex).lkw && emb(o, RWMutex).lkr == 0
+//@ modifies *o, emb(o, RWMutex).lkw
+//@ ensures [P:C17] !emb(o, RWMutex).lkw && emb(o, RWMutex).lkr == 0
+
+//@ func (*in).IsOpen
+//@ requires o != nil && !emb(o, RWMutex).lkw && emb(o, RWMutex).lkr >= 0
+//@ modifies emb(o, RWMutex).lkr
+//@ ensures [P:C17] open == o.hasProc && emb(o, RWMutex).lkr == old(emb(o, RWMutex).lkr)
+
+//@ macro lkFree(o) = !emb(o, RWMutex).lkw && emb(o, RWMutex).lkr == 0
+
+//@ func (*out).fireCmd
+//@ requires o != nil && lkFree(o)
+//@ modifies *o, emb(o, RWMutex).lkw
+//@ ensures [P:C17] lkFree(o)
+
+//@ func (*out).IsOpen
+//@ requires o != nil && lkFree(o)
+//@ modifies emb(o, RWMutex).lkr
+//@ ensures [P:C17] open == (o.cmd != nil) && lkFree(o)
